@@ -113,11 +113,111 @@ def _c08_callgrind(ctx):
     return viols, errs, {"callgrind_items": items, "callgrind_items_skipped_as_noise": skipped, "callgrind_asm_symbols_judged": sorted(s.split("/")[-1] for s in symbols)}
 
 
+def _c08_memtrace(ctx):
+    """C08 layer 2b: load-address sets of the constant-time table lookups under valgrind/lackey (--trace-mem=yes).
+    The worker (harness/curve/c08_memtrace_test.go) looks digit d up in its own copy of the table; the (offset, size) pairs of
+    the loads that fall into a copy, IN ORDER, must be the same sequence for all 17 digits and must touch every entry."""
+    import os, re, json, subprocess, tempfile
+    viols, errs, cov = [], [], {}
+    if ctx["replay"]:
+        rf = json.load(open(ctx["replay"]))
+        if rf.get("test") != "C08MemTrace":
+            return [], [], {}
+    judged = {}
+    for cfg, godebug in (("default", "asyncpreemptoff=1"), ("purego", "asyncpreemptoff=1")):
+        binp = ctx["bin_path"]("curve", cfg)
+        if not os.path.exists(binp):
+            errs.append("C08 memtrace[%s]: worker binary missing" % cfg)
+            continue
+        outdir = os.path.join(ctx["dirs"]["logs"], "memtrace-" + cfg)
+        os.makedirs(outdir, exist_ok=True)
+        trace = os.path.join(outdir, "trace.txt")
+        env = dict(os.environ, GODEBUG=godebug, GOGC="off", GOMAXPROCS="1", C08_MEM="1")
+        cmd = ["valgrind", "--tool=lackey", "--trace-mem=yes", "--log-file=" + trace, binp, "-test.run", "^TestC08MemWorker$", "-test.v", "-test.timeout", "0"]
+        try:
+            p = subprocess.run(cmd, env=env, cwd=outdir, stdout=subprocess.PIPE, stderr=subprocess.STDOUT, text=True, errors="replace", timeout=1800)
+        except (OSError, subprocess.TimeoutExpired) as e:
+            errs.append("C08 memtrace[%s]: valgrind could not run: %r" % (cfg, e))
+            continue
+        if p.returncode != 0 or "C08MEM-DONE" not in p.stdout:
+            errs.append("C08 memtrace[%s]: worker under valgrind failed (rc=%s): %s" % (cfg, p.returncode, p.stdout[-300:]))
+            continue
+        slots = []  # (routine, digit, base, size)
+        for m in re.finditer(r"^C08MEM (\S+) (-?\d+) ([0-9a-f]+) (\d+)$", p.stdout, re.M):
+            slots.append((m.group(1), int(m.group(2)), int(m.group(3), 16), int(m.group(4))))
+        if not slots:
+            errs.append("C08 memtrace[%s]: worker announced no tables" % cfg)
+            continue
+        lo, hi = min(b for _, _, b, _ in slots), max(b + sz for _, _, b, sz in slots)
+        slots.sort(key=lambda x: x[2])
+        import bisect
+        bases = [b for _, _, b, _ in slots]
+        loads = {(r_, d): [] for r_, d, _, _ in slots}
+        with open(trace, errors="replace") as fh:
+            for ln in fh:
+                if len(ln) < 4 or ln[1] not in "LM" or ln[0] != " ":
+                    continue
+                try:
+                    a, sz = ln[3:].split(",")
+                    a = int(a, 16)
+                    sz = int(sz)
+                except ValueError:
+                    continue
+                if a < lo or a >= hi:
+                    continue
+                i = bisect.bisect_right(bases, a) - 1
+                if i < 0:
+                    continue
+                r_, d, b, tsz = slots[i]
+                if a < b + tsz:
+                    loads[(r_, d)].append((a - b, sz))
+        try:
+            os.remove(trace)
+        except OSError:
+            pass
+        for routine in sorted({r_ for r_, _, _, _ in slots}):
+            tsz = [sz for r_, _, _, sz in slots if r_ == routine][0]
+            sets = {d: loads[(routine, d)] for r_, d, _, _ in slots if r_ == routine}
+            base = sets[0]
+            covered = set()
+            for o, sz in base:
+                covered.update(range(o, min(o + sz, tsz)))
+            entry = tsz // 8
+            touched = {o // entry for o in covered}
+            judged["%s[%s]" % (routine, cfg)] = {"digits": len(sets), "loads_per_lookup": len(base), "bytes_read": len(covered), "table_bytes": tsz}
+            bad = None
+            if len(touched) != 8:
+                bad = ("ct:lookup-skips-table-entries:" + routine, "digit 0 reads entries %s only" % sorted(touched), 0)
+            for d in sorted(sets):
+                if sets[d] != base and bad is None:
+                    k = next((i for i, (x, y) in enumerate(zip(sets[d], base)) if x != y), min(len(sets[d]), len(base)))
+                    bad = ("ct:digit-dependent-load-addresses:" + routine, "the sequences of loads (offset, size) from the table differ between digit %d (%d loads) and digit 0 (%d loads), first at load #%d: %r vs %r"
+                           % (d, len(sets[d]), len(base), k, sets[d][k:k + 3], base[k:k + 3]), d)
+            if bad:
+                rp = os.path.join(ctx["dirs"]["replays"], "C08MemTrace.%s.%s.json" % (routine.replace("/", "_"), cfg))
+                json.dump({"test": "C08MemTrace", "config": cfg, "signature": bad[0], "detail": bad[1], "case": {"routine": routine, "digit": bad[2], "config": cfg}}, open(rp, "w"), indent=1)
+                viols.append(("C08MemTrace", bad[0], ctx["replay"] or rp, cfg))
+    if judged and not ctx["replay"]:
+        st = {"test": "C08MemTrace(lackey)", "config": "default+purego", "evals": sum(v["digits"] for v in judged.values()), "cases": sum(v["digits"] for v in judged.values()),
+              "nontrivial_cases": sum(v["digits"] for v in judged.values()), "distinct_hashes": list(range(1, 1 + sum(v["digits"] for v in judged.values()))), "distinct_capped": False,
+              "classes": {"lookup:" + k: v["digits"] for k, v in judged.items()}, "samples": [], "known": {}, "exhaustive": True, "extra": {}}
+        json.dump(st, open(os.path.join(ctx["dirs"]["stats"], "C08MemTrace.%d.json" % os.getpid()), "w"))
+    cov["memtrace_lookups_judged"] = judged
+    return viols, errs, cov
+
+
+def _c08_post(ctx):
+    v1, e1, c1 = _c08_callgrind(ctx)
+    v2, e2, c2 = _c08_memtrace(ctx)
+    c1.update(c2)
+    return v1 + v2, e1 + e2, c1
+
+
 PROPS["C08"] = {
     "title": "Secret-dependent operations run in constant time at the source level",
     "level": "exploration",
-    "engine": "rapid + tools/ctinstr (source instrumenter) + guard pages + valgrind/callgrind",
-    "post": _c08_callgrind,
+    "engine": "rapid + tools/ctinstr (source instrumenter) + guard pages + valgrind/lackey memory trace + valgrind/callgrind",
+    "post": _c08_post,
     "technique": ("two-run non-interference testing: property-based generation of (operation, public input, secret pair); the "
                   "instrumented build records every basic block, short-circuit operand, non-constant index/slice bound and "
                   "variable-time compare position and the traces of the two secrets must be identical; exhaustive guard-page "
@@ -142,8 +242,9 @@ PROPS["C08"] = {
     "assumptions": ["source-level instrumentation preserves semantics (repo test-suite passes on the instrumented copy)",
                     "constant-time at the source / instruction-count level only: micro-architecture is out of scope"],
     "units": [{
-        "pkg": "curve", "configs": ["default"],
-        "tests": {"TestC08GuardPages": LIST(), "TestC08GuardPagesOracleSelfTest": LIST()},
+        "pkg": "curve", "configs": ["default", "purego"],
+        "tests": {"TestC08GuardPages": LIST(configs=["default"]), "TestC08GuardPagesOracleSelfTest": LIST(configs=["default"]),
+                  "TestC08MemWorker": LIST()},  # skips unless run under the memory tracer by the post step
     }, {
         "pkg": "internal/zzc08", "configs": ["default"], "always_build": True,
         "tests": {"TestC08AsmWorker": LIST()},
